@@ -1,40 +1,63 @@
 /-
-  C17 (readable file, ILL-FORMED content): `load` failing half-way.
+  C17 (readable file, ILL-FORMED content): `load` failing half-way — and, the statements being
+  about EVERY content and EVERY outcome, also `load` succeeding.
 
   The loaders declare the file's variables first (`loadVars` / `declare`) and build nodes line
   by line, so a content that is rejected half-way HAS changed the manager: "nothing changed" is
-  false (examples below).  What holds for EVERY content and EVERY outcome — returned or raised —
-  is `KeptV`: the invariant, every node that was there (same triple), the function each of them
-  denotes, the level of every declared variable, and the switches (`_last_len`, the context
-  flag, the registered roots).
+  false (examples below).  What holds, for the code after the repair of findings F16 / F17:
+
+  * `KeptV`: the invariant; every node that was there (same triple) and the function it
+    denotes; the level of every declared variable; the switches (`_last_len`, the context flag,
+    the schedule, the registered roots).
+  * EXACT COUNTS: `RefExact m ext → RefExact m' ext` — the loader holds nothing when it raises
+    (for `dd.autoref` and JSON: one reference per returned `Function` when it returns).  For JSON
+    this is the `except BaseException:` clause of `_load_json` (F17).
+  * THE ORDER IS STILL A BIJECTION onto `0..n-1` (`OrderOK`): always for `levels=False` and for
+    JSON; for `levels=True` thanks to the two pre-checks of `_load_pickle` (F16: the file's
+    levels are a permutation of `0..n-1`, every pair agrees with the manager): the load is
+    refused before anything is declared, or every variable gets declared.  (The hypothesis
+    "distinct names" says that `vars` is a dict — the model keeps its items as a list.)
 
   * pickle, `dd.bdd.BDD.load` / `dd.autoref.BDD.load`: any `levels`, dynamic reordering enabled
     or not (the loader never looks at it outside a context) — `C17_load_rejected`,
     `C17_load_rejected_autoref`;
-  * JSON, `_copy.load_json(load_order=False)`, dynamic reordering not enabled —
-    `C17_load_json_rejected`.
-  NOT covered: `load_order=True` on ill-formed content (`reorder(order)` on arbitrary input)
-  and JSON with reordering enabled on ill-formed content.
+  * JSON, `_copy.load_json(load_order=False)`, dynamic reordering not enabled, no node line
+    with the terminal's id `1` (`jsonIdOne` below: such a file is ACCEPTED and leaks a
+    reference) — `C17_load_json_rejected`.
+  NOT covered: `load_order=True` on ill-formed content (`reorder(order)` and the raw
+  `find_or_add` on arbitrary input) and JSON with reordering enabled on ill-formed content.
 -/
 import DDProofs.LoadRejected
 open Std
 namespace DD
 
 /-- C17: `BDD.load(file.p, levels)` on ANY content — well-formed or not, accepted or raising
-half-way -/
+half-way: `KeptV`, exact counts for the same ledger, the order a bijection (`LoadLeaves`) -/
 theorem C17_load_rejected (f : PickleFile) (levels : Bool) (m : Mgr) (hI : Inv m)
-    (hc : m.ctx = false) : KeptV m (loadPickle f levels m).2 :=
-  loadPickle_keptV f levels m hI hc
+    (hc : m.ctx = false) : LoadLeaves f levels m (loadPickle f levels m).2 :=
+  loadPickle_leaves f levels m hI hc
 
-/-- C17: the same for `dd.autoref.BDD.load` (the result's `Function`s included) -/
+/-- C17: the same for `dd.autoref.BDD.load`; the counts are exact for the caller's ledger plus
+one reference per returned `Function`, and for the caller's ledger when the call raised -/
 theorem C17_load_rejected_autoref (f : PickleFile) (levels : Bool) (m : Mgr) (hI : Inv m)
-    (hc : m.ctx = false) : KeptV m (loadPickleAutoref f levels m).2 :=
-  loadPickleAutoref_keptV f levels m hI hc
+    (hc : m.ctx = false) :
+    KeptV m (loadPickleAutoref f levels m).2 ∧
+    (OrderOK m.tbl → (levels = true → (f.vars.map (·.1)).Nodup) →
+      OrderOK (loadPickleAutoref f levels m).2.tbl) ∧
+    ∀ ext, RefExact m ext →
+      match (loadPickleAutoref f levels m).1 with
+      | .ok roots => RefExact (loadPickleAutoref f levels m).2 (extAdd ext (roots.values.map Int.natAbs))
+      | .error _ => RefExact (loadPickleAutoref f levels m).2 ext :=
+  loadPickleAutoref_leaves f levels m hI hc
 
-/-- C17: `load_json(file, bdd, load_order=False)` on ANY content, dynamic reordering not enabled -/
-theorem C17_load_json_rejected (f : JsonFile) (m : Mgr) (hI : Inv m) (hoff : m.lastLen = none) :
-    KeptV m (loadJson f false m).2 :=
-  loadJson_keptV f m hI hoff
+/-- C17: `load_json(file, bdd, load_order=False)` on ANY content without a node line `1`,
+dynamic reordering not enabled, from a between-calls state with the counts exact for `e`:
+`KeptV`, and again a between-calls state (`GoodState`: invariant, order a bijection, reordering
+off, outside a context) with the counts exact for `e` plus one reference per returned `Function`
+— for `e` itself when the call raised -/
+theorem C17_load_json_rejected (f : JsonFile) (hid : ∀ ln ∈ f.nodes, ln.id ≠ 1) (m : Mgr)
+    (e : Nat → Nat) (hg : GoodState m e) : JsonLeaves e m (loadJson f false m) :=
+  loadJson_false_any f hid m e hg
 
 /-- C17: what `KeptV` gives the user -/
 theorem C17_load_rejected_means (m m' : Mgr) (h : KeptV m m') (u : Int) (hu : m.tbl.Mem u) :
@@ -62,24 +85,76 @@ example : (loadPickle fileDangling false {}).1 = .error .key ∧
     (loadPickle fileDangling false {}).2.tbl.vars.toList = [("x", 0), ("y", 1)] ∧
     (loadPickle fileDangling false {}).2.tbl.succ.toList = [(2, ⟨1, -1, 1⟩)] := by decide +kernel
 
-example : KeptV {} (loadPickle fileDangling false {}).2 :=
+example : LoadLeaves fileDangling false {} (loadPickle fileDangling false {}).2 :=
   C17_load_rejected fileDangling false {} Inv.init rfl
 
-/-- the JSON reader on the same content: `KeyError` at the second node line; the variables are
-declared, the node of `y` is built and keeps the shelf's reference (never released: the loader
-has no cleanup) -/
+/-- F17 (fixed): the JSON reader on the same content raises `KeyError` at the second node line;
+the variables are declared, the node of `y` is built, and the reference `_make_node` took for it
+has been given back: count 0 (it was 1 before the repair) -/
 example : (loadJson jsonDangling false {}).1 = .error .key ∧
     (loadJson jsonDangling false {}).2.tbl.vars.toList = [("x", 0), ("y", 1)] ∧
     (loadJson jsonDangling false {}).2.tbl.succ.toList = [(2, ⟨1, -1, 1⟩)] ∧
-    (loadJson jsonDangling false {}).2.ref.toList = [(1, 3), (2, 1)] := by decide +kernel
+    (loadJson jsonDangling false {}).2.ref.toList = [(1, 3), (2, 0)] := by decide +kernel
 
-example : KeptV {} (loadJson jsonDangling false {}).2 :=
-  C17_load_json_rejected jsonDangling {} Inv.init rfl
+example : JsonLeaves (fun _ => 0) {} (loadJson jsonDangling false {}) :=
+  C17_load_json_rejected jsonDangling (by decide) {} _ GoodState.init
 
-/-- `levels=True` into a manager that has the variables at other levels: refused (`ValueError`
-of `add_var`) with nothing changed -/
+/-- F16 (fixed): `levels=True` into a manager (variables `q`, `r` at levels 0, 1) that has other
+variables on the file's levels: refused by the pre-check (`ValueError`) with NOTHING declared
+(before the repair: `x` was declared at level 2 and the refusal came at `y`, leaving a gap) -/
+def fileF16 : PickleFile :=
+  { vars := [("x", 2), ("y", 0), ("w", 1)]
+    succ := [⟨1, 3, none, none⟩, ⟨2, 2, some (-1), some 1⟩]
+    roots := .list [2] }
+
+example : loadPickle fileF16 true (mgr2 "q" "r") = (.error .value, mgr2 "q" "r") :=
+  loadPickle_refused fileF16 _ (Or.inr (by decide +kernel))
+
+/-- `levels=True` into a manager that has the file's variables at other levels: refused
+(`ValueError`) with nothing changed -/
 example : (loadPickle fileDangling true (mgr2 "y" "x")).1 = .error .value ∧
     (loadPickle fileDangling true (mgr2 "y" "x")).2.tbl.vars.toList = [("x", 1), ("y", 0)] := by
   decide +kernel
+
+/-! ### files whose own levels are not a permutation of `0..n-1`
+
+The pre-check of the pairs against the manager is not enough for them: the range assertion
+(`0 <= i < n`) and the refusal "level already used" of `add_var` would fire half-way, after an
+earlier variable was declared above a free level.  `_load_pickle` therefore first checks
+`sorted(levels) == list(range(n))`: both files are refused with NOTHING declared. -/
+
+/-- levels 1 and 5 for two variables -/
+def fileGapA : PickleFile :=
+  { vars := [("a", 1), ("b", 5)], succ := [⟨1, 2, none, none⟩], roots := .list [1] }
+/-- level 1 twice -/
+def fileGapB : PickleFile :=
+  { vars := [("a", 1), ("b", 1)], succ := [⟨1, 2, none, none⟩], roots := .list [1] }
+
+example : loadPickle fileGapA true {} = (.error .value, {}) :=
+  loadPickle_refused fileGapA _ (Or.inl (by decide))
+example : loadPickle fileGapB true {} = (.error .value, {}) :=
+  loadPickle_refused fileGapB _ (Or.inl (by decide))
+
+/-- with `levels=False` the range assertion of the loop still stops `fileGapA` half-way
+(`AssertionError((5, 2))` after `a` was declared) — at the NEXT FREE level, so without a gap;
+`fileGapB` loads -/
+example : (loadPickle fileGapA false {}).1 = .error .assertion ∧
+    (loadPickle fileGapA false {}).2.tbl.vars.toList = [("a", 0)] ∧
+    (loadPickle fileGapB false {}).1 = .ok (.list [1]) ∧
+    (loadPickle fileGapB false {}).2.tbl.vars.toList = [("a", 0), ("b", 1)] := by decide +kernel
+
+/-! ### a JSON file with a node line for the terminal's id
+
+`_make_node` asserts `k > 0` only.  A line `"1": […]` puts a node on the shelf under the key 1,
+but `_node_from_int(1, …)` is the constant TRUE: the release loop never reaches the shelf's
+entry.  The file is ACCEPTED, returns the constant, and leaves the node built for the line with
+one reference nobody holds. -/
+
+def jsonIdOne : JsonFile :=
+  { levelOfVar := [("x", 0)], roots := .list [1], nodes := [⟨1, 0, -1, 1⟩] }
+
+example : (loadJson jsonIdOne false {}).1 = .ok (.list [1]) ∧
+    (loadJson jsonIdOne false {}).2.tbl.succ.toList = [(2, ⟨0, -1, 1⟩)] ∧
+    (loadJson jsonIdOne false {}).2.ref.toList = [(1, 3), (2, 1)] := by decide +kernel
 
 end DD
